@@ -5,12 +5,13 @@ gives each operation, rewrites ANY canonical source object into ANY canonical ta
 Document half (DocPatch, on top of the refinement of documents to the plain JSON tree, DocPlain): for every reachable
 single-replica document and every target object without nulls, `PatchByJSON` succeeds, the document's canonical JSON value
 IS the target, and the script is applied as one atomic unit (nothing / one operation / one transaction unit announcing its
-length).  Documents shaped by remote operations: the same theorems apply wherever `DP.DocInv` holds; `Proofs/DocRemoteInv`
-extends the invariant to deliveries (see Props/C03/C19 imports when it is finished).  Other replicas: C01; atomicity on
+length).  Documents shaped by remote operations: `DP.DocInv` is kept by every applicable delivery (DocRemoteInv), so the theorems
+hold in every state a replica reaches by public calls AND deliveries from the server log (`patchByJSON_in_any_reachable_state`).  Other replicas: C01; atomicity on
 failure: C09.  REST endpoint: correspondence slice `rest` (+ `Model/Rest`), not yet a theorem.
 -/
 import Orda.Proofs.PatchDiff
 import Orda.Proofs.DocPatch
+import Orda.Proofs.DocRemoteInv
 namespace Orda.Props.C19
 open Orda
 
@@ -72,5 +73,17 @@ theorem patchByJSON_is_one_unit (r : Replica) (d : Doc) (hs : r.state = .doc d) 
 theorem patchByJSON_to_itself_is_noop (r : Replica) (d : Doc) (hs : r.state = .doc d) (h : DP.DocInv r) :
     (r.patchByJSON d.view).1 = r ∧ (r.patchByJSON d.view).2.1 = [] :=
   DPatch.patchByJSON_same_is_noop r d hs h
+
+/-- "for any current document": in EVERY state a replica reaches by public calls and by deliveries of applicable remote
+    operations (`DR.Life`: concurrent puts that win or lose, removes, array inserts/updates/deletes by other clients),
+    PatchByJSON succeeds and the document's canonical JSON value is exactly the target -/
+theorem patchByJSON_in_any_reachable_state (cuid : String) (create : Bool) (r : Replica) (hl : DR.Life cuid create r)
+    (d : Doc) (hs : r.state = .doc d) (tgt : List (String × JVal)) (hn : (JVal.obj tgt).hasNull = false)
+    (hk : DC.JKeysND (.obj tgt)) :
+    ∃ d', (r.patchByJSON (.obj tgt)).1.state = .doc d' ∧
+      (r.patchByJSON (.obj tgt)).2.2 = .ok () ∧
+      d'.view.canon = (JVal.obj tgt).canon :=
+  let ⟨d', h1, h2, h3, _⟩ := DPatch.patchByJSON_reaches_target r d hs (DR.docInv_life cuid create r hl) tgt hn hk
+  ⟨d', h1, h2, h3⟩
 
 end Orda.Props.C19
